@@ -18,6 +18,7 @@ import (
 	"os"
 	"path/filepath"
 	"runtime"
+	"strings"
 	"time"
 
 	"github.com/cloudflare/pint/verifharness/gitrepo"
@@ -31,10 +32,17 @@ type ghNS struct {
 	Dst    string `json:"dst"`
 }
 
-type ghOp struct {
-	Op   string       `json:"op"`
+type ghPart struct {
 	NS   ghNS         `json:"ns"`
 	File gitrepo.File `json:"file"`
+}
+
+type ghOp struct {
+	Op   string                  `json:"op"`
+	NS   ghNS                    `json:"ns"`
+	File gitrepo.File            `json:"file"`
+	More []ghPart                `json:"more"`
+	Tree map[string]gitrepo.File `json:"tree"` // MergeBase: the merged tree
 }
 
 type ghCase struct {
@@ -71,10 +79,8 @@ func ghRun(pint, cfg string, id int, raw json.RawMessage) ([]map[string]any, err
 	if err := repo.Write("README", "scratch repository of the verification harness\n"); err != nil {
 		return nil, err
 	}
-	mainTree := map[string]gitrepo.File{}
 	headTree := map[string]gitrepo.File{}
 	for p, f := range cs.Fork {
-		mainTree[p] = f
 		headTree[p] = f
 		if f.Present {
 			if err := repo.Write(p, gitrepo.Render(f)); err != nil {
@@ -89,19 +95,33 @@ func ghRun(pint, cfg string, id int, raw json.RawMessage) ([]map[string]any, err
 		return nil, err
 	}
 	nBranch, nBase := 0, 0
+	applyPart := func(pt ghPart) error {
+		switch pt.NS.Status {
+		case "A", "M":
+			headTree[pt.NS.Dst] = pt.File
+			return repo.Write(pt.NS.Dst, gitrepo.Render(pt.File))
+		case "D":
+			delete(headTree, pt.NS.Src)
+			return os.Remove(filepath.Join(repo.Dir, pt.NS.Src))
+		case "R":
+			headTree[pt.NS.Dst] = headTree[pt.NS.Src]
+			delete(headTree, pt.NS.Src)
+			if err := os.MkdirAll(filepath.Dir(filepath.Join(repo.Dir, pt.NS.Dst)), 0o755); err != nil {
+				return err
+			}
+			_, err := repo.Git("mv", pt.NS.Src, pt.NS.Dst)
+			return err
+		}
+		return fmt.Errorf("case %d: unknown status %q", id, pt.NS.Status)
+	}
 	for _, op := range cs.Log {
 		switch op.NS.Status {
-		case "B":
+		case "B": // commit on main: the op carries the new content of the file on main
 			nBase++
 			if _, err := repo.Git("checkout", "-q", "main"); err != nil {
 				return nil, err
 			}
-			f := mainTree[op.NS.Src]
-			f.Present = true
-			f.Rules = append(append([]gitrepo.Rule{}, f.Rules...),
-				gitrepo.Rule{Kind: "rec", Name: fmt.Sprintf("zz%d", nBase), Body: "v1", Lab: "l1", Cmt: "none", Ext: "x0"})
-			mainTree[op.NS.Src] = f
-			if err := repo.Write(op.NS.Src, gitrepo.Render(f)); err != nil {
+			if err := repo.Write(op.NS.Src, gitrepo.Render(op.File)); err != nil {
 				return nil, err
 			}
 			if err := repo.Commit(fmt.Sprintf("base advance %d", nBase)); err != nil {
@@ -110,39 +130,39 @@ func ghRun(pint, cfg string, id int, raw json.RawMessage) ([]map[string]any, err
 			if _, err := repo.Git("checkout", "-q", "feature"); err != nil {
 				return nil, err
 			}
-		case "A", "M":
-			nBranch++
-			headTree[op.NS.Dst] = op.File
-			if err := repo.Write(op.NS.Dst, gitrepo.Render(op.File)); err != nil {
+		case "G": // git merge main; whatever git makes of it, the result (and conflict resolution) is the op's tree
+			_, _ = repo.Git("merge", "--no-commit", "--no-ff", "main")
+			for _, p := range ghPaths {
+				f, ok := op.Tree[p]
+				if ok && f.Present {
+					headTree[p] = f
+					if err := repo.Write(p, gitrepo.Render(f)); err != nil {
+						return nil, err
+					}
+				} else {
+					delete(headTree, p)
+					_ = os.Remove(filepath.Join(repo.Dir, p))
+				}
+			}
+			if err := repo.Commit("merge main"); err != nil {
 				return nil, err
 			}
-			if err := repo.Commit(fmt.Sprintf("%d %s", nBranch, op.Op)); err != nil {
-				return nil, err
-			}
-		case "D":
-			nBranch++
-			delete(headTree, op.NS.Src)
-			if err := os.Remove(filepath.Join(repo.Dir, op.NS.Src)); err != nil {
-				return nil, err
-			}
-			if err := repo.Commit(fmt.Sprintf("%d %s", nBranch, op.Op)); err != nil {
-				return nil, err
-			}
-		case "R":
-			nBranch++
-			headTree[op.NS.Dst] = headTree[op.NS.Src]
-			delete(headTree, op.NS.Src)
-			if err := os.MkdirAll(filepath.Dir(filepath.Join(repo.Dir, op.NS.Dst)), 0o755); err != nil {
-				return nil, err
-			}
-			if _, err := repo.Git("mv", op.NS.Src, op.NS.Dst); err != nil {
-				return nil, err
-			}
-			if err := repo.Commit(fmt.Sprintf("%d %s", nBranch, op.Op)); err != nil {
-				return nil, err
+			if out, err := repo.Git("rev-list", "--parents", "-n", "1", "HEAD"); err != nil || len(strings.Fields(out)) != 3 {
+				return nil, fmt.Errorf("case %d: merge commit does not have two parents: %q %v", id, out, err)
 			}
 		default:
-			return nil, fmt.Errorf("case %d: unknown status %q", id, op.NS.Status)
+			nBranch++
+			if err := applyPart(ghPart{op.NS, op.File}); err != nil {
+				return nil, err
+			}
+			for _, pt := range op.More {
+				if err := applyPart(pt); err != nil {
+					return nil, err
+				}
+			}
+			if err := repo.Commit(fmt.Sprintf("%d %s", nBranch, op.Op)); err != nil {
+				return nil, err
+			}
 		}
 	}
 	log, err := repo.BranchLog("main")
@@ -155,7 +175,11 @@ func ghRun(pint, cfg string, id int, raw json.RawMessage) ([]map[string]any, err
 	k := 0
 	for i, op := range cs.Log {
 		if op.NS.Status == "B" {
-			recs = append(recs, rec{"ev": "BaseAdv", "id": id, "path": op.NS.Src})
+			recs = append(recs, rec{"ev": "BaseAdv", "id": id, "op": rawCase.Log[i]})
+			continue
+		}
+		if op.NS.Status == "G" {
+			recs = append(recs, rec{"ev": "Merge", "id": id, "op": rawCase.Log[i]})
 			continue
 		}
 		obs := []ghNS{}
@@ -191,6 +215,10 @@ func ghRun(pint, cfg string, id int, raw json.RawMessage) ([]map[string]any, err
 	if other == nil {
 		other = []string{}
 	}
+	parse := res.Parse
+	if parse == nil {
+		parse = []gitrepo.ParseReport{}
+	}
 	// where the harness itself put the rules of the HEAD files (counted while rendering)
 	layout := []map[string]any{}
 	for _, p := range ghPaths {
@@ -201,7 +229,7 @@ func ghRun(pint, cfg string, id int, raw json.RawMessage) ([]map[string]any, err
 			}
 		}
 	}
-	recs = append(recs, rec{"ev": "Finish", "id": id, "rc": res.RC, "markers": markers, "deps": deps, "other": other, "layout": layout})
+	recs = append(recs, rec{"ev": "Finish", "id": id, "rc": res.RC, "markers": markers, "deps": deps, "other": other, "parse": parse, "layout": layout})
 	return recs, nil
 }
 
